@@ -13,6 +13,7 @@ Three groups of cases (all replayable one by one):
 from __future__ import annotations
 
 import itertools
+import json
 import math
 import os
 from fractions import Fraction
@@ -28,7 +29,9 @@ RULE = ("unit: q_in_upper_sphere / hemisphere_quaternion_set / SphereGrid4Dim._g
         "error branches. grid: SphereGridFactory.create for ico, cube3D, randomS (quick: every N<=60 + level boundaries + random "
         "N<=400; thorough: every N<=400 via the factory and every further N through level 4 with the level's polytope handed to "
         "the grid class), cube4D, randomQ (quick: every N<=41 / 30, 272 and random N<=272; thorough: every N<=272), fulldiv "
-        "8,40,272 and inadmissible N, zero3D/zero4D, names with N=1. poly: ico and cube3D to level 4 (quick 3), "
+        "8,40,272 and inadmissible N, zero3D/zero4D, names with N=1; configurations: all eight algorithms x {SphereGridFactory, "
+        "SphereGrid3D/4DFactory, class + gen_grid(), class + gen_and_time()} x time_generation in {False, True} x N at the level "
+        "boundaries (fulldiv 8, 40, 272), read through get_grid_as_array(both), .grid, len(), get_N(). poly: ico and cube3D to level 4 (quick 3), "
         "cube4D to level 2: every prefix N of the node list. A case is non-trivial when the grid has >=2 rows (grid), the vector "
         "has a non-zero entry (unit), or the level has >=2 nodes (poly); distinct by (kind, input).")
 
@@ -342,6 +345,20 @@ def grid_cases(ctx):
             c["model"] = False
         out.append(c)
 
+    # configurations: every algorithm x every way of making the grid x time_generation in {False, True} x a few N (level
+    # boundaries; all affordable fulldiv sizes: 2080 needs the level-3 hypercube, > 10 min, and is not built in any tier)
+    cfgN = {"ico": (1, 12, 13, 42, 43), "cube3D": (1, 8, 9, 26, 27), "randomS": (1, 7, 30), "zero3D": (1,),
+            "cube4D": (1, 8, 9, 40), "randomQ": (1, 7, 30), "zero4D": (1,), "fulldiv": (8, 40)}
+    for alg, Ns in cfgN.items():
+        dim = 3 if alg in ("ico", "cube3D", "randomS", "zero3D") else 4
+        for via in GRID_VIAS:
+            for tg in (False, True):
+                for N in Ns:
+                    out.append({"kind": "grid", "alg": alg, "N": N, "dim": dim, "stub": N > 14, "cfg": {"via": via, "tg": tg}})
+    heavy = [("factory", True), ("class", True), ("gen_and_time", False)] if ctx.quick else \
+            [(v, t) for v in GRID_VIAS for t in (False, True)]
+    for via, tg in heavy:            # fulldiv 272: one level-2 hypercube (about 11 s) per case
+        out.append({"kind": "grid", "alg": "fulldiv", "N": 272, "dim": 4, "stub": True, "cfg": {"via": via, "tg": tg}})
     add("zero3D", 1, 3, False)
     add("zero4D", 1, 4, False)
     add("zero3D", 5, 3, False)      # N is overwritten by the zero grids
@@ -716,8 +733,58 @@ def _alias_probe(g, dim, full, upper, idx):
     return None
 
 
+# Every public way of producing a grid object and every keyword the factories / classes accept (rotobj.py: the only keyword
+# besides N is `time_generation`; the command-line script molgri-grid creates every grid with time_generation=True).
+# The expected grid does not depend on the configuration - that is what the cases with a "cfg" check.
+GRID_VIAS = ("factory",        # SphereGridFactory.create(alg, N, dimensions, **kw)
+             "dimfactory",     # SphereGrid3DFactory / SphereGrid4DFactory.create(alg_name=alg, N=N, **kw)
+             "class",          # <GridClass>(N=N, **kw).gen_grid()
+             "gen_and_time")   # <GridClass>(N=N, **kw).gen_and_time()  (the public timed generator), then gen_grid()
+
+
+def _grid_classes(ro):
+    return {"ico": ro.IcoRotations, "cube3D": ro.Cube3DRotations, "randomS": ro.RandomSRotations, "zero3D": ro.ZeroRotations3D,
+            "cube4D": ro.Cube4DRotations, "randomQ": ro.RandomQRotations, "fulldiv": ro.FullDivCube4DRotations,
+            "zero4D": ro.ZeroRotations4D}
+
+
+def _make_grid(ro, alg, N, dim, cfg):
+    """returns (grid object after generation, array returned by the generating call or None)"""
+    via = cfg.get("via", "factory")
+    kw = {"time_generation": bool(cfg["tg"])} if "tg" in cfg else {}
+    if via == "factory":
+        return ro.SphereGridFactory.create(alg, N, dim, **kw), None
+    if via == "dimfactory":
+        fac = ro.SphereGrid3DFactory if dim == 3 else ro.SphereGrid4DFactory
+        return fac.create(alg_name=alg, N=N, **kw), None
+    g = _grid_classes(ro)[alg](N=N, **kw)
+    if via == "class":
+        return g, g.gen_grid()
+    if via == "gen_and_time":
+        arr = g.gen_and_time()
+        if g.grid is None:          # the 3-D generators return the array, gen_grid() is what stores it
+            g.grid = arr
+        g.gen_grid()                # assertions + Voronoi object on the stored array (no second generation)
+        return g, arr
+    raise core.HarnessError(f"unknown way of making a grid: {via}")
+
+
+def _cfg_text(case):
+    cfg = case.get("cfg") or {}
+    alg, N, dim = case["alg"], case["N"], case["dim"]
+    kw = f", time_generation={bool(cfg['tg'])}" if "tg" in cfg else ""
+    via = cfg.get("via", "factory")
+    if via == "factory":
+        return f"SphereGridFactory.create({alg!r}, {N}, {dim}{kw})"
+    if via == "dimfactory":
+        return f"SphereGrid{dim}DFactory.create(alg_name={alg!r}, N={N}{kw})"
+    if via == "class":
+        return f"{alg} grid class (N={N}{kw}).gen_grid()"
+    return f"{alg} grid class (N={N}{kw}).gen_and_time()"
+
+
 def grid_impl(case):
-    """SphereGridFactory.create(alg, N, dim) and its getters.  With case['inject'] the grid object is created by its
+    """SphereGridFactory.create(alg, N, dim) (or the way of making the grid named by case['cfg']) and its getters.  With case['inject'] the grid object is created by its
     class constructor and handed the reference polytope of the level the loop would stop at (saves rebuilding the
     polytope for every N; the divide-until-enough loop itself is exercised by the factory cases)."""
     alg, N, dim = case["alg"], case["N"], case["dim"]
@@ -729,13 +796,20 @@ def grid_impl(case):
                 g.polytope = injected_polytope(family_of(alg), level_for(alg, N))
                 g.gen_grid()
             else:
-                g = ro.SphereGridFactory.create(alg, N, dim)
+                g, returned = _make_grid(ro, alg, N, dim, case.get("cfg") or {})
             full = np.array(g.get_grid_as_array(only_upper=False), dtype=float)
             idx = [int(i) for i in g.get_upper_indices()]
             upper = np.array(g.get_grid_as_array(only_upper=True), dtype=float) if idx else np.zeros((0, dim))
             default = np.array(g.get_grid_as_array(), dtype=float)
             out = {"full": full, "upper": upper, "idx": idx, "default_is": "upper" if np.array_equal(default, upper) and dim == 4 else
                    ("full" if np.array_equal(default, full) else "other"), "N_attr": int(g.N), "get_N": int(g.get_N())}
+            # every public way of reading the grid must show the same array / the same N
+            attr = getattr(g, "grid", None)
+            out["attr_same"] = bool(isinstance(attr, np.ndarray) and attr.shape == full.shape and np.array_equal(attr, full))
+            out["len"] = int(len(g))
+            if not case.get("inject") and returned is not None:
+                r = np.asarray(returned, dtype=float)
+                out["returned_same"] = bool(r.shape == full.shape and np.array_equal(r, full))
             out["alias"] = _alias_probe(g, dim, full, upper, idx)
             if g.polytope is not None:
                 out["level"] = int(g.polytope.current_level) - 1
@@ -851,7 +925,7 @@ def _grid_check_body(ctx, case, out):
             ctx.branch("grid:fulldiv_rejected")
             return
         call = (f"{alg} grid class with N={N} and the level-{level_for(alg, N)} polytope, gen_grid()" if case.get("inject")
-                else f"SphereGridFactory.create({alg!r}, {N}, {dim})")
+                else _cfg_text(case))
         ctx.fail("C07:exception", f"{call} raised {out['err']}: {out.get('msg', '')}", case)
         return
     if out.get("alias"):
@@ -863,8 +937,13 @@ def _grid_check_body(ctx, case, out):
     full, upper = out["full"], out["upper"]
     rows = upper if dim == 4 else full
     exp_shape = (Nexp, dim)
-    if rows.shape != exp_shape or (dim == 4 and full.shape != (2 * Nexp, 4)) or out["get_N"] != Nexp:
-        ctx.fail("C07:shape", f"grid does not have exactly N={Nexp} rows", case, list(exp_shape), [list(rows.shape), list(full.shape), out["get_N"]])
+    if rows.shape != exp_shape or (dim == 4 and full.shape != (2 * Nexp, 4)) or out["get_N"] != Nexp or out.get("len", Nexp) != Nexp:
+        ctx.fail("C07:shape", f"grid does not have exactly N={Nexp} rows", case, list(exp_shape),
+                 [list(rows.shape), list(full.shape), out["get_N"], out.get("len")])
+        return
+    if out.get("attr_same") is False or out.get("returned_same") is False:
+        which = "the .grid attribute" if out.get("attr_same") is False else "the array returned by the generating call"
+        ctx.fail("C07:shape", f"{which} is not the array get_grid_as_array(only_upper=False) shows", case)
         return
     if not np.all(np.isfinite(full)):
         ctx.fail("C07:norm", "non-finite coordinate", case)
@@ -916,7 +995,10 @@ def run_grids(ctx, cases):
         ctx.count()
         ctx.branch(f"grid:{c['alg']}")
         ctx.branch("grid:stub_voronoi" if c.get("stub") else "grid:real_voronoi")
-        ctx.branch("grid:polytope_injected" if c.get("inject") else "grid:via_factory")
+        cfg = c.get("cfg") or {}
+        ctx.branch("grid:polytope_injected" if c.get("inject") else f"grid:via_{cfg.get('via', 'factory')}")
+        if "tg" in cfg:
+            ctx.branch(f"grid:time_generation={bool(cfg['tg'])}")
         if "err" in o:
             ctx.branch(f"grid:err:{o['err']}")
         for key, what, exp, obs in fails:
@@ -926,7 +1008,7 @@ def run_grids(ctx, cases):
         else:
             ctx.branch("grid:oracle_only")
         if c["N"] >= 2 and "err" not in o:
-            ctx.nt(("grid", c["alg"], c["N"]))
+            ctx.nt(("grid", c["alg"], c["N"], json.dumps(c.get("cfg"), sort_keys=True)))
         if c["alg"] in ("cube4D", "ico") and c["N"] in (13, 41):
             ctx.sample({"case": c, "first_rows": o.get("upper", o.get("full", np.zeros((0, 0))))[:2].tolist() if "err" not in o else o})
     # ---- correspondence, one sweep op per algorithm -------------------------------------------------------
